@@ -57,16 +57,34 @@ type ScenarioB struct {
 	// Repeat runs the scenario several times: the order in which the sync loop picks queued header
 	// and data events is chosen by the Go runtime (select), not by the scenario.
 	Repeat int `json:"repeat,omitempty"`
+	// ChainTimes > 1: the chain is Chain repeated that many times (a long chain from a short description):
+	// a node that was cut off or joins late finds a P2P store head far above its own height in one jump.
+	ChainTimes int `json:"chain_times,omitempty"`
+}
+
+// FullChain is the chain the scenario describes.
+func (sc ScenarioB) FullChain() []pw.Step {
+	chain := sc.Chain
+	for i := 1; i < sc.ChainTimes; i++ {
+		chain = append(chain[:len(chain):len(chain)], sc.Chain...)
+	}
+	return chain
 }
 
 // GenB draws a real-ingress scenario. withCrash adds crash restarts (C07), otherwise clean restarts only.
 func GenB(t *rapid.T, maxChain int, withCrash bool) ScenarioB {
 	sc := ScenarioB{InitialHeight: GenInitial(t)}
 	sc.Chain = GenChain(t, maxChain)
-	n := len(sc.Chain)
 	maxDA := uint64(rapid.IntRange(1, 6).Draw(t, "maxda"))
 	split := rapid.SampledFrom([]string{"da", "da", "p2p", "mixed", "mixed"}).Draw(t, "split")
-	for i, st := range sc.Chain {
+	if rapid.IntRange(0, 11).Draw(t, "long") == 0 {
+		// a long chain that reaches the node in few large jumps (mostly through the P2P stores)
+		sc.ChainTimes = (rapid.IntRange(66, 140).Draw(t, "longlen") + len(sc.Chain) - 1) / len(sc.Chain)
+		split = rapid.SampledFrom([]string{"p2p", "p2p", "mixed"}).Draw(t, "longsplit")
+	}
+	chain := sc.FullChain()
+	n := len(chain)
+	for i, st := range chain {
 		onDA := split == "da" || (split == "mixed" && rapid.IntRange(0, 9).Draw(t, "onda") < 7)
 		if onDA {
 			k := rapid.SampledFrom([]int{1, 1, 1, 2}).Draw(t, "hcopies")
@@ -105,9 +123,9 @@ func GenB(t *rapid.T, maxChain int, withCrash bool) ScenarioB {
 		case k < 3:
 			sc.Ops = append(sc.Ops, OpB{Kind: "da-advance", N: rapid.IntRange(1, 3).Draw(t, "adv")})
 		case k < 5:
-			sc.Ops = append(sc.Ops, OpB{Kind: "p2p-headers", N: rapid.IntRange(1, 4).Draw(t, "gh")})
+			sc.Ops = append(sc.Ops, OpB{Kind: "p2p-headers", N: rapid.SampledFrom([]int{1, 2, 3, 4, 4, 80, 1000}).Draw(t, "gh")})
 		case k < 7:
-			sc.Ops = append(sc.Ops, OpB{Kind: "p2p-data", N: rapid.IntRange(1, 4).Draw(t, "gd")})
+			sc.Ops = append(sc.Ops, OpB{Kind: "p2p-data", N: rapid.SampledFrom([]int{1, 2, 3, 4, 4, 80, 1000}).Draw(t, "gd")})
 		case k < 10:
 			sc.Ops = append(sc.Ops, OpB{Kind: "tick", N: rapid.IntRange(1, 2).Draw(t, "nt")})
 		case k < 11 || !withCrash:
@@ -160,7 +178,7 @@ func runB(sc ScenarioB, dir, id string, step func(r *BRun, when string) *world.P
 	return sw.InBubble(func() world.Verdict {
 		root, _ := os.MkdirTemp(dir, "drvb")
 		defer os.RemoveAll(root)
-		c, err := fw.BuildChain(world.NodeOpts{ChainID: "drvb-chain", InitialHeight: sc.InitialHeight, RootDir: root + "/p"}, sc.Chain)
+		c, err := fw.BuildChain(world.NodeOpts{ChainID: "drvb-chain", InitialHeight: sc.InitialHeight, RootDir: root + "/p"}, sc.FullChain())
 		if err != nil {
 			return world.Fail(id+"/chain", "cannot build the proposer chain: %v", err)
 		}
@@ -311,6 +329,9 @@ func runB(sc ScenarioB, dir, id string, step func(r *BRun, when string) *world.P
 		}
 		if sc.ExecMs > 0 {
 			r.Labels = append(r.Labels, "slow-execution")
+		}
+		if len(c.Blocks) > 64 {
+			r.Labels = append(r.Labels, "long-chain")
 		}
 		kinds := map[bool]bool{}
 		for _, b := range c.Blocks {
